@@ -68,8 +68,14 @@ impl C15 {
             let k = tier.pick(5, 6);
             sets.push((l, format!("F4+İẞ<={}", k), extra, 0, k));
             sets.push((l, format!("exotic28<={}", tier.pick(3, 4)), exotic(), 0, if n >= 6 { tier.pick(3, 4) } else { 3 }));
+            sets.push((l, format!("F7-numerics<={}", tier.pick(5, 6)), fam7(l), 0, tier.pick(5, 6)));
+            // every composable pair of the language on its own: base, mark, a neutral consonant, space
+            for (b, m, _) in frozen_inventory(l) {
+                let c = if l.is_cyrillic() { 'т' } else { 't' };
+                sets.push((l, format!("pair U+{:04X}+U+{:04X}<={}", b as u32, m as u32, tier.pick(4, 5)), vec![b, m, c, ' '], 0, tier.pick(4, 5)));
+            }
         }
-        let inv = LANGS.iter().map(|l| with_lang(*l, |lang| compose_inventory(lang))).collect();
+        let inv = LANGS.iter().map(|l| frozen_inventory(*l)).collect();
         C15 { sets, inv, long: crate::doms::corpus_ecommerce_titles() }
     }
 }
@@ -203,7 +209,7 @@ impl Prop for C15 {
     }
     fn assumptions(&self) -> Vec<String> {
         vec![
-            "composition reference as in C02 (pairs discovered through Lang::unicode_compose, values from the harness's Unicode table); NULs of the input and padding NULs are both removed before comparing the original array".into(),
+            "composition reference as in C02 (frozen compose inventory of the language, values cross-checked against the harness's Unicode table); NULs of the input and padding NULs are both removed before comparing the original array".into(),
             "separator = whitespace, control, or the punctuation list of the specification (refs::SPEC_PUNCTUATION)".into(),
             "strings longer than the bound and characters outside the alphabets are not covered (the 'randomly for longer ones' half of the quantifier is not decided here)".into(),
         ]
